@@ -44,6 +44,9 @@ def run(ctx):
     ss += S.generate(ctx, 5 if ctx.quick else 25, 10 if ctx.quick else 30, max_e=5, max_loops=3, routings_per_graph=1, kinds=("uniform",),
                      names=["tadpole", "tadpole_pair", "triangle_tadpole", "sunrise_tadpole"])
     ss += S.generate(ctx, 0, 3, routings_per_graph=1, kinds=("uniform",), special=("repeated_weights", "weights_equal_dod") * (3 if ctx.quick else 10))
+    # vacuum graphs (no external vertex): all edges massive / none / some - spanning is "holds every massive edge" and nothing else
+    ss += S.generate(ctx, 0, 6 if ctx.quick else 12, routings_per_graph=1, kinds=("uniform",),
+                     special=("vacuum_mixed",) * (6 if ctx.quick else 24) + ("vacuum", "vacuum_massless") * (2 if ctx.quick else 6))
     ss += S.samples_for_cases(ctx, S.big_dimension_cases(ctx.rng), 3)
     rng = ctx.rng
     # rare sectors: push edge-choice coordinates to the ends of [0,1)
